@@ -17,6 +17,21 @@ CHECKS = {
          "Every subset of a 10-key universe (x3 loci) and of an 8-key mixed-length universe is loaded into a real Cache and queried with every 1-byte key plus shorter/longer keys: ForEach must visit each entry once in non-decreasing XOR distance, Closest must be a minimum, ForEachCloser/ForEachMatching must equal the brute-force sets; DHTNode.ListNodeInfos/HandleGet.Closer/HandleFindNode likewise over every subset of 7 peers; the comparison laws over all triples (and quadruples for transitivity) of byte strings of length <= 2 over {00,01,7f,80,ff}.",
          "Longer keys and larger contents than the enumerated universes (the code is length-generic: loops over bytes).",
          "5/C19", "seqmc"),
+ "C01": ("model_checking",
+         "controlled-scheduler exploration (preemption-bounded DFS with happens-before state caching) of two concurrent Tells through every in-memory swarm stack",
+         "For each in-memory stack (mem, frag, mbapp with and without fast path, string/varint/uintN mux, multiswarm, mapswarm, wlswarm, p2pkeswarm and nestings) two sender threads (same node or different nodes) Tell self-describing payloads of boundary sizes (0, 1, part-1, part, part+1, 2*part, MTU) as two-slice IOVecs and overwrite their buffers as soon as Tell returns; receiver callbacks hold the message across scheduling points, re-check it and scribble over it. Every schedule within the preemption bound is executed on the instrumented real code and every delivered (Src,Dst,Payload) must equal a told message of that source addressed to that node.",
+         "Payload contents are patterns, not arbitrary bytes; for p2pke stacks the handshake runs deterministically before the explored phase; UDP/QUIC/SSH stacks are outside the scheduler (not covered by this check).",
+         "5/C01", "gosched"),
+ "C11": ("model_checking",
+         "controlled-scheduler exploration of concurrent Asks, handler errors, oversized responses, close and cancellation on every ask-capable in-memory stack",
+         "1-2 askers with 8-byte buffers and unique requests, 1-2 ServeAsk threads whose handler answers with tag-derived bytes of lengths 0/1/cap-1/cap/cap+1 or a negative value, plus a closer of the destination, a canceller and virtual deadlines; all schedules within the preemption bound; a successful Ask must return exactly the bytes one of its own handler invocations wrote (handler saw exactly the request and the asker's address), every other case must be an error, and no Ask may stay blocked once its context ended.",
+         "QUIC and SSH ask paths are outside the scheduler; 8-byte asker buffers.",
+         "5/C11", "gosched"),
+ "C12": ("model_checking",
+         "controlled-scheduler exploration of Close against blocked and late Receive/ServeAsk calls and an in-flight message on every in-memory stack",
+         "Receivers and a ServeAsk caller block with non-expiring contexts, a peer has a message in flight, a closer calls Close (twice in thorough) and a late thread calls Receive/ServeAsk twice after Close returned; at quiescence (virtual timers fired up to the horizon) every such call must have returned non-nil, a late nil is success-after-close, a step-horizon inside a late call is a spin, no hand-off may be committed after Close returned, and every goroutine the stacks started must have exited after all swarms are closed.",
+         "Set-up (threads reaching their blocking points) and tear-down run deterministically; the explored window is Close vs delivery vs late calls. UDP/QUIC/SSH stacks are outside the scheduler.",
+         "5/C12", "gosched"),
  "C13": ("model_checking",
          "controlled-scheduler exploration (preemption-bounded stateless DFS) of the real TellHub/AskHub/Queue; porcupine as per-history oracle for Queue",
          "The real hubs.go/queue.go (channels, selects, sync.Once rewritten to scheduler-owned shims by the AST instrumenter) are driven by 1-2 producers, 1-2 receivers, cancellers, purger and closer; every schedule with <=2 (quick) / <=4 (thorough) preemptions is executed and its complete call/return/callback history checked against the rendezvous specification (exactly-once hand-off, success only after the callback finished, error only if unseen, cancelled callers not parked at quiescence, no stranded message while a live receiver waits) and, for Queue, linearizability against a bounded FIFO.",
